@@ -117,6 +117,7 @@ pub fn run(c: &Case, _ctx: &Ctx) -> Outcome {
         let mut unchanged = false;
         if let Some(script) = script {
             let before = flatten(&tree);
+            let tree_before = tree.clone();
             let chunks_before: BTreeMap<Vec<u8>, usize> = before
                 .iter()
                 .filter_map(|(k, e)| match &e.kind {
@@ -136,7 +137,8 @@ pub fn run(c: &Case, _ctx: &Ctx) -> Outcome {
                     interesting = true;
                 }
             }
-            unchanged = flatten(&tree) == before;
+            // compare the full model (incl. ctime, which the flat view does not carry)
+            unchanged = tree == tree_before;
         }
         let model = flatten(&tree);
 
